@@ -17,7 +17,7 @@
 //!                `{ROOTPCT}` for the root with every `/` written `%2F`) part(decimal) keys(list hex, delete_objects)
 //!                parts(`-` or `,`-joined decimals, complete_multipart_upload) flags(letters or `_`:
 //!                m metadata present, a access-point copy source, n no body, s invalid storage class,
-//!                l positive content-length)
+//!                l positive content-length, r metadata directive REPLACE (copy_object))
 //!                ops `http_get|http_put|http_delete|http_head|http_copy` go through `S3Service::call` instead:
 //!                key = raw request path (as sent), src_key = raw `x-amz-copy-source` value
 //! output fields: code (`OK` or the S3 error code) changed(`,`-joined `<+|-|~><f|d>:<hex path relative to
@@ -399,7 +399,12 @@ async fn run_op(fs: &FileSystem, i: &In) -> Outcome {
             o.code = code_of(&r);
         }
         "copy_object" => {
-            let input = CopyObjectInput::builder().bucket(b).key(k).copy_source(copy_source(i)).build().unwrap();
+            let mut bld = CopyObjectInput::builder().bucket(b).key(k).copy_source(copy_source(i));
+            if i.flags.contains('r') {
+                // x-amz-metadata-directive: REPLACE (with or without new metadata): whatever it does, it concerns the DESTINATION
+                bld = bld.metadata_directive(Some(MetadataDirective::from_static(MetadataDirective::REPLACE))).metadata(metadata_of(&i.flags));
+            }
+            let input = bld.build().unwrap();
             let r = fs.copy_object(req(input)).await;
             o.code = code_of(&r);
         }
@@ -702,6 +707,9 @@ fn generate(rng: &mut Rng, n: u64, tier: &str, emit: &mut dyn FnMut(Vec<String>)
             emit(mk(op, bk, "dir/inner", "", "", "", 0, &[], "-", "m"));
         }
         emit(mk("copy_object", bk, "copied", "bucket-a", "obj", "", 0, &[], "-", ""));
+        emit(mk("copy_object", bk, "copied", "bucket-a", "obj", "", 0, &[], "-", "mr")); // REPLACE + new metadata, other bucket
+        emit(mk("copy_object", bk, "copied", "bucket-a", "obj", "", 0, &[], "-", "r")); // REPLACE, no metadata
+        emit(mk("copy_object", "bucket-a", "copied2", "bucket-a", "obj", "", 0, &[], "-", "mr")); // same bucket, other key
         emit(mk("copy_object", "bucket-a", "copied", bk, "obj", "", 0, &[], "-", ""));
         emit(mk("copy_object", bk, "obj", "bucket-b", "secret", "", 0, &[], "-", "a"));
         emit(mk("upload_part_copy", "bucket-a", "mp", bk, "obj", U1, 3, &[], "-", ""));
